@@ -52,6 +52,7 @@ func c10lServe(conn net.Conn, nids int) {
 
 func c10LargeResponse(c *h.Ctx, prop string) {
 	cj := map[string]any{"leg": "large-response"}
+	c.Current(cj)
 	var servers []net.Conn
 	dialer := func(ctx context.Context) (net.Conn, error) {
 		// buffered both ways: a peer that stops reading does not block the other one's writes
